@@ -19,7 +19,7 @@ RULE = ('cases = generated schedules: a worker function of a generated kind {ret
         'advances (nested inner workers included), the following fast call returns its value; one evaluation = one call; '
         'non-trivial = |delta| <= 15 ms (completion races the expiry) or the function swallows / blocks / nests; distinct '
         'by sha1(kind, limit, delta, variant, repetition)')
-BUDGET = {'quick': 25, 'thorough': 400}
+BUDGET = {'quick': 25, 'thorough': 1200}
 EXC_TYPES = ['ValueError', 'RuntimeError', 'KeyError', 'IndexError', 'ZeroDivisionError', 'MemoryError', 'OSError',
              'AssertionError', 'StopIteration', 'RecursionError', 'NotImplementedError', 'ArithmeticError', 'LookupError']
 KINDS = ['return', 'raise', 'swallow', 'native', 'retry_loop', 'nested_inner_times_out', 'nested_inner_returns']
